@@ -12,4 +12,8 @@ CHECKS['C06'] = {'engine': 'BFS', 'design_ref': 'DESIGN.md 6 C06',
     'technique': 'explicit-state BFS over sides-assignment histories on real Spectrum objects (full-state hashing) + exhaustive basis-vector enumeration of the tools helpers, against axis-derived conversion matrices',
     'text': 'All histories of sides assignments up to the depth bound (a fixpoint is reached) from every basis PSD vector, both data types, every NFFT in the bound; every distinct state is compared with a reference conversion matrix built from the frequency axes.',
     'note': _EX_NOTE}
+CHECKS['C07'] = {'engine': 'BFS', 'design_ref': 'DESIGN.md 6 C07',
+    'technique': 'explicit-state BFS over setter/call/read histories of real estimator objects (full vars() state hashing, depth-bounded) with a fresh-object differential oracle in every distinct state',
+    'text': 'All histories up to the depth bound over a 18-24 event menu per class and data type are executed on real objects; every distinct concrete state is probed on a disposable rebuild against a freshly constructed object with the same final attribute values.',
+    'note': _EX_NOTE + '; the fresh-object estimate is the oracle (its numerical correctness is decided by the other properties)'}
 NOT_BUILT = {}
